@@ -297,7 +297,13 @@ def r7_session_roundtrip(ctx):
   MM, NOQ = ALG['MIN_MAX_UNIFORM_QUANT'], ALG['NO_QUANTIZE']
   FC, CONV, ALL = OP['FULLY_CONNECTED'], OP['CONV_2D'], OP['ALL_SUPPORTED']
   it = c11._mk_interp(ctx)  # pylint: disable=protected-access
-  alphabet = [('.*', ALL, drq, MM), ('x', FC, srq, MM), ('.*', FC, drq, MM), ('x', ALL, srq, MM), ('y', CONV, drq, MM), ('.*', FC, None, NOQ), ('x', FC, drq, MM)]
+  # a float-casting config written with plain strings where the dataclass declares (str-)enums: legal for a caller,
+  # equal to the enum-valued config, and what a JSON recipe turns into before from_dict
+  FCAST = ALG['FLOAT_CASTING']
+  fc_str = tables.construct(ctx, common.OPCFG, weight_tensor_config=tables.tensor_config(ctx, num_bits=16, dtype='FLOAT'), compute_precision='FLOAT', explicit_dequantize=True)
+  if not isinstance(fc_str, Obj):
+    raise index.AnalysisError(f'C12.R7: string-valued float-casting config does not construct: {fc_str}')
+  alphabet = [('.*', ALL, drq, MM), ('x', FC, srq, MM), ('.*', FC, drq, MM), ('x', ALL, srq, MM), ('y', CONV, drq, MM), ('.*', FC, None, NOQ), ('x', FC, drq, MM), ('x', FC, fc_str, FCAST), ('x', ALL, fc_str, FCAST)]
   queries = list(itertools.product([FC, CONV], ['x/y;', 'y;', 'zz;']))
   rs.exhaustive = True
 
@@ -319,6 +325,8 @@ def r7_session_roundtrip(ctx):
   n = 0
   for k in (1, 2, 3):
     for seq in itertools.product(range(len(alphabet)), repeat=k):
+      if k == 3 and ctx.tier == 'quick' and any(i >= 7 for i in seq):
+        continue   # the quick tier takes triples from the first seven rules only; the thorough tier takes all
       a = fresh()
       okseq = True
       for i in seq:
